@@ -298,6 +298,9 @@ def run(ctx):
         for tid, l, clause in tv.propfail:
             meta = items[tid][1]
             ctx.violation(dict(kind="cg", clause=" ".join(clause.split(" ")[:3]), controller=meta["kind"]), "CG run %s: %s" % (meta, clause), replay=dict(what="cg", **meta))
+        for tid, name in tracemod.masked_truth(tv, traces, lambda t: {k: t[-1][k] for k in ("criterion", "consistent", "hpd_ok")}):
+            meta = items[tid][1]
+            ctx.violation(dict(kind="cg", clause=name, controller=meta["kind"]), "CG run %s: ground truth '%s' is false (and the run is not a behaviour of the skeleton)" % (meta, name), replay=dict(what="cg", **meta))
         for tid in tv.rejected:
             if not any(t == tid for t, _, _ in tv.propfail):
                 ctx.add_drift("CG run %s: event %d %r is not a behaviour of the transcribed skeleton" % (items[tid][1], tv.maxl[tid] + 1, traces[tid][tv.maxl[tid]]))
